@@ -2,6 +2,7 @@ SPECIFICATION Spec
 CONSTANTS
   ClosesPipeOnBuildError = TRUE
   ClosesFilesOnParamsError = TRUE
+  CancelsBeforeClose = FALSE
   ClosesFilesOnFieldError = TRUE
   ZeroLenReadSetsEOF = FALSE
   FileLen = 2
